@@ -117,6 +117,22 @@ class BufNoSeek(io.BufferedIOBase):
         return self._b.read(n)
 
 
+class BufNoSeekShort(BufNoSeek):
+    """a socket-like source: read(n) returns what is available, at most 64 bytes"""
+    def read(self, n=-1):
+        return self._b.read(64 if n is None or n < 0 or n > 64 else n)
+
+    def read1(self, n=-1):
+        return self.read(n)
+
+
+class RawNoSeekShort(RawNoSeek):
+    def readinto(self, buf):
+        d = self._b.read(min(len(buf), 64))
+        buf[:len(d)] = d
+        return len(d)
+
+
 def make_source(kind, data, path):
     if kind in ('text', 'StringIO') and data.startswith(b'\xef\xbb\xbf'):
         return None     # a byte order mark is not part of decoded text
@@ -138,6 +154,10 @@ def make_source(kind, data, path):
         return RawNoSeek(data)
     if kind == 'buffered-noseek':
         return BufNoSeek(data)
+    if kind == 'raw-noseek-short':
+        return RawNoSeekShort(data)
+    if kind == 'buffered-noseek-short':
+        return BufNoSeekShort(data)
     with open(path, 'wb') as f:
         f.write(data)
     if kind == 'file':
@@ -293,7 +313,7 @@ def evaluate(ctx, cases):
         if not has_decl:
             if o['result'] == 'other-library:XMLResourceOSError' and c['role'] == 'instance' \
                     and c['payload'] in ('big-prolog-clean', 'big-prolog-body') \
-                    and c['kind'] in ('raw-noseek', 'buffered-noseek') and defused:
+                    and c['kind'] in ('raw-noseek', 'buffered-noseek', 'raw-noseek-short', 'buffered-noseek-short') and defused:
                 ctx.known_finding('F-C13a')
             elif o['result'] != 'parsed' and c['role'] == 'instance':
                 problems.append('clean document (%s) from a %s source is not parsed with defuse=%r: %s %s'
@@ -311,7 +331,8 @@ def evaluate(ctx, cases):
 
 def gen(ctx):
     modes = ['never', 'remote', 'nonlocal', 'always']
-    kinds = ['text', 'bytes', 'StringIO', 'BytesIO', 'file', 'raw-noseek', 'buffered-noseek', 'path', 'file-url']
+    kinds = ['text', 'bytes', 'StringIO', 'BytesIO', 'file', 'raw-noseek', 'buffered-noseek', 'raw-noseek-short', 'buffered-noseek-short',
+             'path', 'file-url']
     locs = ['none', 'local', 'remote']
     pls = list(payloads('/nonexistent'))
     cases = []
